@@ -45,7 +45,7 @@ REAL_VS_STUB = {
     'stub_or_simulator_owned': ['flatten/unflatten callables', 'warnings filters + showwarning hook', 'metaclass hooks',
                                 'operation / fault history (choice tape)'],
 }
-EXPECTED_PROBES = ('op:register', 'op:unregister', 'op:register_class', 'op:dataclass', 'fault:arg', 'fault:warn-error',
+EXPECTED_PROBES = ('dataclass-retry-after-failure', 'op:register', 'op:unregister', 'op:register_class', 'op:dataclass', 'fault:arg', 'fault:warn-error',
                    'fault:showwarning-raise', 'fault:hook-raise', 'outcome:ok', 'outcome:raised', 'atomicity-checked',
                    'shadowing-observed')
 
@@ -345,6 +345,7 @@ def run_job(job, io):
                 ns_arg = None if opk != 'register_class' else 5
                 expect_exc = (TypeError, ValueError)
         f = None
+        retry_cls = None
         if opk == 'register_class' and not (isinstance(cls, type) and hasattr(cls, 'tree_flatten')):
             cls = U.CE
             if args_cls != 42:
@@ -394,6 +395,13 @@ def run_job(job, io):
                     key_ns = 'a'
                 if args_cls == 42:
                     optree.dataclasses.dataclass(42, namespace=ns_arg)
+                if expect_exc is not None and sweep is None:
+                    # a failing call on an EXISTING plain class must leave it usable (the valid retry after this step must succeed)
+                    class Plain:
+                        x: object
+                        y: object = None
+                    retry_cls = Plain
+                    optree.dataclasses.dataclass(Plain, namespace=ns_arg)
                 how = tape.draw(2, 'dc-how') if sweep is None else 0
                 if how == 0:
                     @optree.dataclasses.dataclass(namespace=ns_arg)
@@ -464,6 +472,24 @@ def run_job(job, io):
             if rc_f0 is not None and f is not None and sys.getrefcount(f) != rc_f0:
                 viol('refcount', site, 'refcount of the callables\' owner changed %d -> %d across a failing register call' % (rc_f0, sys.getrefcount(f)))
             f = None
+        if retry_cls is not None and not violations:
+            probes['dataclass-retry-after-failure'] += 1
+            try:
+                retried = optree.dataclasses.dataclass(retry_cls, namespace='a')
+            except Exception as e2:  # noqa: BLE001
+                viol('not-atomic', 'dataclass:retry', 'dataclass(C, namespace=<invalid>) raised, and the retry with a valid namespace on the SAME class '
+                     'now raises %s: %s' % (type(e2).__name__, e2))
+            else:
+                fr = DataclassFuncs(retried, rid[0])
+                rid[0] += 1
+                types.append(retried)
+                instances[retried] = retried(U.Leaf(1), U.Leaf(2))
+                model.reg[('a', retried)] = fr
+                all_funcs.append(fr)
+                dataclass_types.append(retried)
+                oplog.append('dataclass-retry(Plain,a)->ok')
+                observe(model, types, instances, all_funcs, viol, 'dataclass:retry', probes)
+            retry_cls = None
         keys.add('%s|%s|%s|%s|%s' % (hash(model.digest(types)) & 0xffff, opk, getattr(cls, '__name__', cls) if cls in types[:12] else 'DC', fault or '-', outcome.split(':')[0]))
         if violations:
             break
